@@ -922,7 +922,7 @@ class string_term : public term
 {
 public:
     using internal_value_type = std::string_view;
-    static const size_t dfa_size = (DataSize - 1) * 2;
+    static const size_t dfa_size = (DataSize > 1 ? DataSize - 1 : 1) * 2;
     static const bool is_trivial = true;
 
     constexpr string_term(const char (&str)[DataSize], int precedence = 0, associativity a = associativity::no_assoc):
